@@ -20,11 +20,34 @@ import (
 var Registry = map[string]func(tier string) []fw.Scenario{}
 
 func sub[T any](o ro.Observable[T], rec *h.Rec) ro.Subscription {
+	if d := deferSub; d != nil {
+		d(func() { subOne(o, rec) }) // C12 shared-arguments: build now, subscribe later
+		return nil
+	}
+	if r2 := alsoSub; r2 != nil {
+		// C12's "two live subscriptions of one multi-source observable": the second recorder is subscribed
+		// to the very same observable value, on its own thread (some operators wait inside Subscribe)
+		alsoSub = nil
+		vrt.GoNamed("subscribe2", func() { setAlsoSubscription(subOne(o, r2)) })
+	}
+	return subOne(o, rec)
+}
+
+func subOne[T any](o ro.Observable[T], rec *h.Rec) ro.Subscription {
 	if rec.Raw {
 		return o.SubscribeWithContext(ctxWith(), h.RawObserver[T](rec))
 	}
 	return o.SubscribeWithContext(ctxWith(), h.Observer[T](rec))
 }
+
+var (
+	alsoSub          *h.Rec
+	alsoSubscription ro.Subscription
+	deferSub         func(run func())
+)
+
+//go:norace
+func setAlsoSubscription(s ro.Subscription) { alsoSubscription = s }
 
 // recSet holds the recorders of one execution (the outer one first, then inner windows/groups).
 type recSet struct {
